@@ -97,6 +97,7 @@ type admWorld struct {
 	jw    *jobmutatingwebhook.Webhook
 	jcw   *jobconfigmutatingwebhook.Webhook
 	store []*execution.JobConfig
+	cached []*execution.JobConfig // the copies in the webhooks' informer cache
 	seq   int
 	// f16open: the known finding F20 (patch addresses a parent that the submitted JSON lacks)
 	// still reproduces on its witness; generated cases of that input class are then counted,
@@ -143,12 +144,29 @@ func (w *admWorld) setNow(ns int64) { w.clk.SetTime(time.Unix(0, ns)) }
 func (w *admWorld) nowNs() int64    { return w.clk.Now().UnixNano() }
 
 func (w *admWorld) setStore(jcs []*execution.JobConfig) {
-	for _, old := range w.store {
+	for _, old := range w.cached {
 		w.ctx.Sim().JobConfigs().CacheDel(old)
 	}
+	// w.store is the harness' own record of the JobConfigs as they are STORED (what op lines, the model and the
+	// monitors read); the informer cache the webhooks read gets separate copies, so a webhook that writes
+	// through a cached object (seed C16w4-1: the expanded Job shared the cached JobConfig's template and was
+	// defaulted in place) cannot also rewrite the expectation
 	w.store = jcs
+	w.cached = nil
 	for _, jc := range jcs {
-		w.ctx.Sim().JobConfigs().CacheSet(jc)
+		cp := jc.DeepCopy()
+		w.cached = append(w.cached, cp)
+		w.ctx.Sim().JobConfigs().CacheSet(cp)
+	}
+}
+
+// cacheDrift counts the cached JobConfigs that no longer equal the stored ones (observation, not a verdict:
+// the property speaks about what later Jobs receive, which the following requests of the case judge)
+func (w *admWorld) cacheDrift() {
+	for i, jc := range w.store {
+		if i < len(w.cached) && !reflect.DeepEqual(jc, w.cached[i]) {
+			w.c.Count("observed.cached-jobconfig-modified-by-webhook")
+		}
 	}
 }
 
